@@ -22,6 +22,7 @@ EX = {
     "EX_d": (True, (-5.0, 0.0), -3e-9),        # below the tolerance
     "EX_e": (False, (-50.0, 0.5), -6.0),       # written the other way round: exports 6
     "EX_f": (True, (-2000.0, 30.0), 0.0),
+    "EX_g": (False, (-4.0, 9.0), 5e-7),        # a trace import: above the solver's tolerance (1e-7), below 1e-6
 }
 OBJECTIVE = {"BIO": 1.0}
 
@@ -97,7 +98,7 @@ def check_minimal_medium(ctx, rule: str) -> None:
     for feasible in (True, False):
         for components in (False, True):
             for exports in (False, True):
-                for open_ex in (False, True, 500, 0.5):
+                for open_ex in (False, True, 500, 0.5, 5000):   # 5000: wider than every bound the model has
                     model = _model(feasible)
                     it = Interp(prog, NATIVE, FOLLOW, {"cobra.medium.boundary_types.find_boundary_types": lambda it_, ev, c, a, k: list(a[0].exchanges)}, globals_={"Zero": Lin(), "OPTIMAL": "optimal"})
                     kwargs = {"min_objective_value": 0.25, "exports": exports, "minimize_components": components, "open_exchanges": open_ex}
